@@ -34,8 +34,19 @@ impl<'a> Gen<'a> {
         g
     }
 
+    /// Re-draws the run's zone set with many zones (cache capacity, eviction
+    /// and ordering effects need more than a handful).
+    pub fn many_zones(&mut self) {
+        let n = 10 + self.rng.below(40) as usize;
+        self.pick_zones_n(n);
+    }
+
     fn pick_zones(&mut self) {
         let n = 2 + self.rng.below(5) as usize;
+        self.pick_zones_n(n);
+    }
+
+    fn pick_zones_n(&mut self, n: usize) {
         let mut named = vec![];
         for _ in 0..n {
             named.push(self.rng.pick(&self.image.zones).clone());
@@ -120,7 +131,7 @@ impl<'a> Gen<'a> {
         let zone = self.zone();
         let ns = self.instant(&zone);
         let mut o = Op::new(kind, &zone, ns);
-        o.sel = self.rng.next() as u32 % 100_000;
+        o.sel = self.rng.next() as u32;
         if self.rng.chance(1, 4) {
             o.cal = self.rng.below(ops::CALS.len() as u64) as u8;
         }
@@ -164,10 +175,18 @@ impl<'a> Gen<'a> {
             clock.push(clock.last().unwrap() + d);
         }
         o.clock = clock;
-        o.host = match self.rng.below(10) {
+        o.host = match self.rng.below(14) {
             0 => "err".to_string(), // F9
             1 => "ok:No/Such_Zone".to_string(),
             2 => format!("ok:{}", self.rng.pick(&self.named).to_lowercase()),
+            // unusual answers of the host lookup (all "unknown name" faults)
+            3 => match self.rng.below(5) {
+                0 => "ok:".to_string(),
+                1 => "ok:Etc/Unknown".to_string(),
+                2 => format!("ok:{}", "Very/".repeat(60)),
+                3 => "ok:Europe/Berlin ".to_string(),
+                _ => "ok:../../etc/passwd".to_string(),
+            },
             _ => format!("ok:{}", self.rng.pick(&self.named)),
         };
     }
@@ -176,7 +195,11 @@ impl<'a> Gen<'a> {
         o.kind.starts_with("now.")
             && (o.clock.first().map(|c| *c < 0 || *c > NS_MAX).unwrap_or(false)
                 || o.host == "err"
-                || o.host == "ok:No/Such_Zone")
+                || (o.host.starts_with("ok:") && o.host != "ok:UTC" && !o.host[3..].chars().next().map(|c| c.is_ascii_uppercase()).unwrap_or(false))
+                || o.host == "ok:No/Such_Zone"
+                || o.host == "ok:Etc/Unknown"
+                || o.host.starts_with("ok:Very/")
+                || o.host.ends_with(' '))
     }
 
     pub fn disk_fault(&mut self, enabled: &[FaultKind]) -> Fault {
@@ -242,6 +265,9 @@ impl<'a> Gen<'a> {
     // ------------------------------------------------------------ C20
 
     pub fn plan_c20(&mut self, seed: u64, thorough: bool) -> Plan {
+        if self.rng.chance(1, 10) {
+            self.many_zones();
+        }
         let max_threads = if thorough { 6 } else { 4 };
         let n_threads = 1 + self.rng.below(max_threads) as usize;
         let max_ops = if thorough { 14 } else { 10 };
@@ -290,7 +316,11 @@ impl<'a> Gen<'a> {
     // ------------------------------------------------------------ C15
 
     pub fn plan_c15(&mut self, seed: u64, thorough: bool) -> Plan {
-        let n = 10 + self.rng.below(if thorough { 111 } else { 51 }) as usize;
+        let many = self.rng.chance(1, 5);
+        if many {
+            self.many_zones();
+        }
+        let n = if many { 40 } else { 10 } + self.rng.below(if thorough { 111 } else { 51 }) as usize;
         let mut kinds: Vec<&str> = vec![];
         kinds.extend(ops::RAW);
         kinds.extend(ops::RAW); // raw queries weigh double
